@@ -14,7 +14,7 @@ require (
 	golang.org/x/sys v0.29.0 // indirect
 )
 
-replace github.com/jrhy/mast => /tmp/rdev
+replace github.com/jrhy/mast => /repo
 
 replace verifharness => ../harness
 
